@@ -39,7 +39,7 @@ macro_rules! c15_slice {
             $crate::reach!(len == 0, "empty slice");
             $crate::reach!(len > BYTES + 1 && fits && neg == S, "longer slice accepted");
             $crate::reach!(len > BYTES && !fits, "longer slice rejected");
-            $crate::reach!(len > 0 && len < BYTES && neg == S && (<$D>::BITS == 8 || len % (<$D>::BITS as usize / 8) != 0), "shorter slice, partial digit");
+            $crate::reach!(BYTES == 1 || (len > 0 && len < BYTES && neg == S && (<$D>::BITS == 8 || len % (<$D>::BITS as usize / 8) != 0)), "shorter slice, partial digit");
         });
     };
 }
